@@ -42,6 +42,20 @@ def run_stats_case(case, driver):
     vs, impl, lines = [], ["ok"], ["stats reset 1"]
     try:
         th = InferenceThread(MagicMock(), log_tick_time_statistics_interval=float(F(case["interval"])))
+        if "dt" in case:
+            # float regime (monitor only, no model line): `n` ticks of the same non-dyadic duration,
+            # the statistics fire on their own; bookkeeping must survive any rounding of its sums
+            lines, impl = [], []
+            for k in range(case["n"]):
+                now[0] += float(case["dt"])
+                try:
+                    th.on_tick()
+                except Exception as e:
+                    vs.append(Violation(f"c08:stats:{type(e).__name__}",
+                                        f"on_tick #{k + 1} raised {type(e).__name__}: {e} (every step lasts "
+                                        f"{case['dt']} s, logging interval {case['interval']})", {"stats": case}))
+                    break
+            return vs, None
         for k, fires in enumerate(case["fires"]):
             # advance the clock so that the scheduler is (not) due at this tick
             now[0] += float(F(case["interval"])) * 2 + 1.0 if fires else 0.0
@@ -77,7 +91,8 @@ def suite_stats(ctx: Ctx) -> SuiteResult:
     res = SuiteResult("tick-statistics",
                       rule="every firing pattern of the statistics scheduler of length <= 7 (exhaustive) plus "
                            "random patterns up to 40 ticks, logging intervals 0, 1/2, 3; real "
-                           "InferenceThread.on_tick with a scripted clock; non-trivial = fires at least once "
+                           "InferenceThread.on_tick with a scripted clock; plus a float-regime stream (equal non-dyadic step "
+                           "durations, monitor only: bookkeeping must not raise); non-trivial = fires at least once "
                            "after at least one tick", exhaustive=True)
     from framework import corpus_cases
     cases = [c["case"]["stats"] for c in corpus_cases("C08") if "stats" in c["case"]]
@@ -87,9 +102,17 @@ def suite_stats(ctx: Ctx) -> SuiteResult:
     for _ in range(ctx.n(150, 3000)):
         cases.append({"interval": ctx.rng.choice(["0", "1/2", "3"]),
                       "fires": [ctx.rng.random() < 0.4 for _ in range(ctx.rng.randint(2, 40))]})
+    for dt in ["0.1", "0.3", "0.7", "0.001", "1e-05", "0.0123", "3.3", "1e-06"]:
+        for iv in ["1", "7"]:
+            for n in (50, 400):
+                cases.append({"interval": iv, "dt": dt, "n": n})
     for case in cases:
         vs, d = run_stats_case(case, ctx.driver)
         res.evaluations += 1
+        if "dt" in case:
+            res.hit("float-regime")
+            res.violations += vs
+            continue
         res.hit("fires:" + str(sum(case["fires"])))
         if any(case["fires"][1:]):
             res.nontrivial.add((case["interval"], tuple(case["fires"])))
